@@ -501,7 +501,7 @@ func parseCase(input string) (c caseIn, err error) {
 		return c, fmt.Errorf("sched in volleys")
 	}
 	if c.rsp != "redir" {
-		if n, e := strconv.Atoi(c.rsp); e != nil || n < 0 || n > 1<<20 {
+		if n, e := strconv.Atoi(strings.TrimPrefix(c.rsp, "s")); e != nil || n < 0 || n > 4<<20 {
 			return c, fmt.Errorf("rsp")
 		}
 	}
@@ -773,8 +773,11 @@ func newTarget(c caseIn) (*target, error) {
 		})}}
 		t.decoy.Start()
 	} else {
-		rspN, _ = strconv.Atoi(c.rsp)
+		rspN, _ = strconv.Atoi(strings.TrimPrefix(c.rsp, "s"))
 	}
+	// round 6: rsp=s<n> — the answer is STREAMED: three pieces, flushed, 25 ms apart (chunked transfer coding; the header
+	// arrives long before the end of the body)
+	streamed := strings.HasPrefix(c.rsp, "s")
 	rspBody := bytes.Repeat([]byte("r"), rspN)
 	h := http.HandlerFunc(func(w http.ResponseWriter, r *http.Request) {
 		if r.URL.Path == controlPath {
@@ -796,6 +799,19 @@ func newTarget(c caseIn) (*target, error) {
 		w.Header().Set("Content-Type", "text/plain")
 		if c.code != 200 && c.code != 0 {
 			w.WriteHeader(c.code)
+		}
+		if streamed && len(rspBody) >= 3 {
+			third := len(rspBody) / 3
+			for i, piece := range [][]byte{rspBody[:third], rspBody[third : 2*third], rspBody[2*third:]} {
+				if i > 0 {
+					time.Sleep(25 * time.Millisecond)
+				}
+				_, _ = w.Write(piece)
+				if f, ok := w.(http.Flusher); ok {
+					f.Flush()
+				}
+			}
+			return
 		}
 		_, _ = w.Write(rspBody) // refused by net/http for the statuses that carry no body
 	})
@@ -1682,7 +1698,10 @@ func genCase(r *rand.Rand, malformed bool) caseIn {
 		c.gun = "http"
 	}
 	c.preload = r.Intn(8) == 0
-	c.rsp = []string{"0", "2", "2", "700", "5000", "5000", "70000", "redir"}[r.Intn(8)]
+	c.rsp = []string{"0", "2", "2", "700", "5000", "5000", "70000", "redir", "s9000", "s300"}[r.Intn(10)]
+	if r.Intn(60) == 0 {
+		c.rsp = []string{"1600000", "s2400000"}[r.Intn(2)] // round 6: answers beyond a megabyte (read to the end or the connection is lost)
+	}
 	c.mode = "seq"
 	if c.inst > 1 && r.Intn(5) == 0 {
 		c.mode = "par"
@@ -1746,6 +1765,38 @@ func genCase(r *rand.Rand, malformed bool) caseIn {
 			}
 		case 5:
 			c.idle, c.hs = "30000", "20000"
+		}
+	}
+	// round 6: SEVERAL options of the client at once (two to five of them), each with a value that leaves reuse standing: the
+	// connections must be what they are without them (an option that leaks into another one's field shows here)
+	if r.Intn(7) == 0 {
+		c.idle, c.rht, c.mic, c.mich, c.hs = "", "", "", "", ""
+		k := 2 + r.Intn(4)
+		for _, o := range r.Perm(7)[:k] {
+			switch o {
+			case 0:
+				c.idle = []string{"30000", "60000", "0", "45000"}[r.Intn(4)]
+			case 1:
+				if c.gun != "http2" {
+					c.rht = []string{"20000", "0", "15000"}[r.Intn(3)]
+				}
+			case 2:
+				if c.gun != "http2" {
+					c.mich = []string{"1", "5", "0", "3"}[r.Intn(4)]
+				}
+			case 3:
+				if c.gun != "http2" {
+					c.mic = []string{"0", "7", "4"}[r.Intn(3)]
+				}
+			case 4:
+				if c.srv == "plain" {
+					c.hs = []string{"def", "250", "1"}[r.Intn(3)]
+				}
+			case 5:
+				c.ect = []string{"0", "1", "700", "3000"}[r.Intn(4)]
+			case 6:
+				c.dto = []string{"3000", "10000"}[r.Intn(2)]
+			}
 		}
 	}
 	// round 3: shared clients, followed redirects, inline `uris`, ammo limit, a target that comes up late, a third pass
@@ -2506,7 +2557,116 @@ func c09Gen(r *rand.Rand, tier string) []string {
 	for i := 0; i < nCanon; i++ {
 		out = append(out, "kind=canon key="+hx(genCanonKey(r)))
 	}
+	c09WriteDims(out)
 	return out
+}
+
+// c09WriteDims (round 6) writes the distribution of the generated inputs, dimension by dimension, to <out>/stats-dims.json (next
+// to the framework's stats.json, which counts coverage classes): for every key of the input line the number of cases per value
+// (sizes and lists are bucketed), so that a dimension that is constant or nearly so is visible at a glance.
+func c09WriteDims(inputs []string) {
+	dir := ""
+	for i, a := range os.Args {
+		if (a == "-out" || a == "--out") && i+1 < len(os.Args) {
+			dir = os.Args[i+1]
+		} else if strings.HasPrefix(a, "-out=") || strings.HasPrefix(a, "--out=") {
+			dir = a[strings.Index(a, "=")+1:]
+		}
+	}
+	if dir == "" {
+		return
+	}
+	bucket := func(n int) string {
+		switch {
+		case n == 0:
+			return "0"
+		case n <= 2:
+			return strconv.Itoa(n)
+		case n <= 4:
+			return "3-4"
+		case n <= 16:
+			return "5-16"
+		case n <= 4096:
+			return "17-4096"
+		case n <= 1<<20:
+			return "4097-1MiB"
+		}
+		return ">1MiB"
+	}
+	dims := map[string]map[string]int{}
+	add := func(k, v string) {
+		if dims[k] == nil {
+			dims[k] = map[string]int{}
+		}
+		dims[k][v]++
+	}
+	for _, in := range inputs {
+		m := drv.KV(in)
+		if m["kind"] != "run" {
+			add("kind", m["kind"])
+			continue
+		}
+		c, err := parseCase(in)
+		if err != nil {
+			add("kind", "unparsable")
+			continue
+		}
+		add("kind", "run")
+		add("fmt", c.format)
+		add("gun", c.gun)
+		add("ssl", strconv.FormatBool(c.ssl))
+		add("target-kind", c.srv)
+		add("keep-alive", strconv.FormatBool(c.ka))
+		add("instances", strconv.Itoa(c.inst))
+		add("target", c.tgt)
+		add("passes", strconv.Itoa(c.passes))
+		add("preload", strconv.FormatBool(c.preload))
+		add("mode", c.mode)
+		add("schedule-given", strconv.FormatBool(len(c.sched) > 0))
+		add("answer", c.rsp)
+		add("status", strconv.Itoa(c.code))
+		add("layout", strconv.Itoa(c.lay))
+		add("features", strconv.Itoa(c.feat))
+		add("entries", bucket(len(c.ents)))
+		add("option-headers", bucket(len(c.conf)))
+		nOpt := 0
+		for k, o := range map[string]string{"idle": c.idle, "hs": c.hs, "rht": c.rht, "mic": c.mic, "mich": c.mich, "ect": c.ect, "dto": c.dto} {
+			if o != "-" && o != "" {
+				nOpt++
+				add("option:"+k, o)
+			}
+		}
+		add("client-options-given", strconv.Itoa(nOpt))
+		add("pauses", strconv.FormatBool(c.gap > 0))
+		add("late-answers", strconv.FormatBool(c.delay > 0))
+		add("shared-client", strconv.Itoa(c.shared)+"/"+c.shoff)
+		add("redirect-option", strconv.FormatBool(c.redir))
+		add("uris-option", strconv.FormatBool(c.uris))
+		add("limit", bucket(c.lim))
+		add("late-target", strconv.FormatBool(c.late))
+		add("dns-cache-off", strconv.FormatBool(c.nodns))
+		add("documented-config", strconv.FormatBool(c.doc))
+		for _, e := range c.ents {
+			add("entry:method", e.method)
+			add("entry:body-bytes", bucket(len(e.body)))
+			add("entry:uri-bytes", bucket(len(e.uri)))
+			add("entry:header-lines", bucket(len(e.hdrs)))
+			add("entry:raw-minor", strconv.Itoa(e.minor))
+			kind := "origin"
+			switch {
+			case strings.HasPrefix(e.uri, "http"):
+				kind = "absolute"
+			case strings.HasPrefix(e.uri, "//"):
+				kind = "network-path"
+			}
+			add("entry:uri-kind", kind)
+		}
+	}
+	b, err := json.MarshalIndent(map[string]any{"inputs": len(inputs), "dimensions": dims}, "", " ")
+	if err == nil {
+		_ = os.MkdirAll(dir, 0o755)
+		_ = os.WriteFile(dir+"/stats-dims.json", b, 0o644)
+	}
 }
 
 func c09Class(in, obs string) string {
@@ -2550,6 +2710,20 @@ func c09Class(in, obs string) string {
 	}
 	if c.idle != "-" || c.hs != "-" || c.rht != "-" || c.mic != "-" || c.mich != "-" {
 		cl += "/transport-options"
+	}
+	nOpt := 0
+	for _, o := range []string{c.idle, c.hs, c.rht, c.mic, c.mich, c.ect, c.dto} {
+		if o != "-" && o != "" {
+			nOpt++
+		}
+	}
+	if nOpt >= 2 {
+		cl += "/option-combo"
+	}
+	if strings.HasPrefix(c.rsp, "s") {
+		cl += "/streamed-answer"
+	} else if n, _ := strconv.Atoi(c.rsp); n > 1<<20 {
+		cl += "/megabyte-answer"
 	}
 	if c.code != 200 {
 		cl += "/status-" + strconv.Itoa(c.code/100) + "xx"
